@@ -266,11 +266,25 @@ chk('C19', 'other',
     'symbolic execution (CrossHair+z3) of real ranking code + z3 term equality for information criteria',
     'DESIGN.md section 3 C19', 'E1')
 
+chk('C20', 'other',
+    'Partial claim (one clause: "covariance, correlation, precision and standard errors reported together satisfy their '
+    'defining relations"). The real tools.external.nonmem.results.calculate_cov_cor_coi_ses, and through it the real '
+    'modeling.calculate_*_from_*, run on pandas object frames of z3 Real terms (lib/symnum.py, solver-decided branches) '
+    'for all 9 availability patterns of (cov, cor+ses, coi, ses); the inputs present are consistent views of one '
+    'symbolic covariance matrix; z3 decides for ALL matrices of size n <= 3 that the four outputs exist, keep their '
+    'labels and satisfy cov = C, cor_ij s_i s_j = C_ij, coi.C = I, se_i^2 = C_ii.',
+    'NOT claimed: NONMEMTableFile / ExtTable / PhiTable / CovTable parsing, row designations, renaming, results JSON '
+    'round trip (pandas C reader and DataFrame indexing - no input can be symbolic); a concrete companion probe '
+    '(probe:table_files, sampling) reads synthetic .ext/.cov/.cor/.coi/.phi/$TABLE files written by an independent '
+    'writer and compares values, labels and designated rows exactly. Trusted: np.linalg.inv replaced by its contract '
+    '(unique inverse), numpy/pandas object-array semantics, exact sqrt; float rounding outside.',
+    'symbolic execution of the real covariance-step derivation over numpy/pandas object arrays of z3 terms (z3 decides '
+    'every branch and the defining relations)',
+    'DESIGN.md section 12.7 / 12.8', 'E4')
+
 NA['C14'] = ('derivations are vectorised pandas pipelines (groupby/cumsum/explode/query); CrossHair realises at the '
              'first DataFrame call and no faithful SMT semantics of pandas exists here; solver-generated datasets '
              'would be sampling')
-NA['C20'] = ('table/result parsing is pandas C reader plus DataFrame indexing; no input of these functions can be '
-             'symbolic and the parsing semantics live in C')
 
 
 def main():
@@ -297,6 +311,9 @@ def main():
             dict(name='semeq', path='lib/semeq', kind_free_text='sympy->z3 translation of the expressions pharmpy '
                  'produces + independent NM-TRAN reference semantics; equivalence queries, numeric replay',
                  serves_properties=[p for p in CHECKS if CHECKS[p]['engine'] == 'E2']),
+            dict(name='symnum', path='lib/symnum.py', kind_free_text='symbolic execution of numeric kernels through numpy '
+                 '/ pandas object arrays of z3 Real terms; branches decided or forked by the solver; numeric replay',
+                 serves_properties=[p for p in CHECKS if CHECKS[p]['engine'] == 'E4'] + ['C11']),
         ],
         checks=[CHECKS[p] for p in props if p in CHECKS],
         not_applicable=na,
